@@ -338,6 +338,10 @@ class MinGenSet():
                     "solve_time": time.perf_counter() - start_time,
                     "status": self.solver.get_model_status(),
                 }
+                # Only a proven infeasibility allows moving on to the next k: after a time limit or any other
+                # inconclusive status a larger k would not be known to be minimum
+                if self.solver.get_model_status() != sw.SolverWrapper.infeasible_status:
+                    return False
         return False
 
     def is_solved(self):
